@@ -720,7 +720,7 @@ func (p *nfs41Program) opSequence(ctx context.Context, args *nfsv4.Sequence4args
 		// call, so deduplicate it if needed.
 		if slot.currentSequenceWaiters != nil {
 			ch := make(chan compoundResult, 1)
-			slot.currentSequenceWaiters = append(slot.currentSequenceWaiters)
+			slot.currentSequenceWaiters = append(slot.currentSequenceWaiters, ch)
 			p.leave()
 			return <-ch
 		}
